@@ -247,6 +247,11 @@ func genSeq(r *vf.RNG, maxSize, maxScale int32, intOnly bool) seq {
 			if r.Chance(1, 20) {
 				v = float64(int64(1) << uint(r.Intn(63)))
 			}
+			if r.Chance(1, 25) {
+				// the ends of the int64 range: math.MinInt64 (whose negation overflows) and the largest
+				// int64 a float64 holds exactly
+				v = vf.Pick(r, []float64{-9223372036854775808.0, 9223372036854774784.0, -9223372036854774784.0})
+			}
 		}
 		s.vals = append(s.vals, v)
 	}
